@@ -48,6 +48,11 @@ class Explorer:
             raise EngineError(f"path budget exceeded ({self.max_paths}) in {self.func_key}")
         script = self.worklist.pop()
         self.paths += 1
+        # deterministic symbol names: every run re-executes from the start, so resetting the
+        # counter makes the symbols of a shared prefix (in particular the parameters) identical
+        from . import values as _v
+        import itertools as _it
+        _v._counter = _it.count()
         self.run = Run(self, script)
         return self.run
 
